@@ -49,6 +49,9 @@ type Job struct {
 	ReplayDir  string            `json:"replay_dir"`
 	Args       map[string]string `json:"args,omitempty"`
 	Race       bool              `json:"race,omitempty"`
+	OmitEdge   *int              `json:"omit_edge,omitempty"`    // leave this edge of the spec unconnected
+	OmitFromStr string           `json:"omit_fromstr,omitempty"` // "proc.port": do not feed this parameter port
+	DropProc   string            `json:"drop_proc,omitempty"`    // remove a consumer process (its upstream out-port dangles)
 	RunTo      []string          `json:"runto,omitempty"`
 	RunToHow   string            `json:"runtohow,omitempty"`
 }
@@ -273,6 +276,36 @@ func runWorkflowJob(job *Job, res *Result) {
 		}
 	} else {
 		res.Scenario = spec.Name
+	}
+	if job.OmitEdge != nil {
+		i := *job.OmitEdge
+		e := spec.Edges[i]
+		spec.Edges = append(append([]Edge{}, spec.Edges[:i]...), spec.Edges[i+1:]...)
+		res.Scenario += fmt.Sprintf("/unconnected=%s.%s<-%s.%s", e.To, e.ToPort, e.From, e.FromPort)
+	}
+	if job.OmitFromStr != "" {
+		f := strings.SplitN(job.OmitFromStr, ".", 2)
+		if ps := spec.proc(f[0]); ps != nil {
+			delete(ps.FromStr, f[1])
+		}
+		res.Scenario += "/unfed=" + job.OmitFromStr
+	}
+	if job.DropProc != "" {
+		np := []ProcSpec{}
+		for _, ps := range spec.Procs {
+			if ps.Name != job.DropProc {
+				np = append(np, ps)
+			}
+		}
+		spec.Procs = np
+		ne := []Edge{}
+		for _, e := range spec.Edges {
+			if e.From != job.DropProc && e.To != job.DropProc {
+				ne = append(ne, e)
+			}
+		}
+		spec.Edges = ne
+		res.Scenario += "/dropped=" + job.DropProc
 	}
 	if job.Fault != nil {
 		res.Scenario += fmt.Sprintf("/fault=%s:%s:%s", job.Fault.Proc, job.Fault.Match, job.Fault.Kind)
